@@ -38,6 +38,11 @@ type DCVictim struct {
 	QTimeout  uint16 `json:"q_timeout"`
 	Text      bool   `json:"text,omitempty"`       // a text (RESP) connection: no client id, at most one request left queued
 	MoreWills int    `json:"more_wills,omitempty"` // further will LOCKs (keys 10v+8..) registered after the three standard ones
+	// Burst > 0: right after the connection has ended a new, unrelated connection sends that many
+	// LOCK requests on keys of its own without waiting for the replies
+	Burst int `json:"burst,omitempty"`
+	// Warmup: ordinary lock/unlock round trips on a key of its own before anything else
+	Warmup int `json:"warmup,omitempty"`
 }
 
 type DCBody struct {
@@ -65,6 +70,12 @@ func genDisconnect(prop string, seed uint64, tier string) *Scenario {
 			if vc.NQueued > 1 {
 				vc.NQueued = 1
 			}
+		}
+		if r.Intn(2) == 0 {
+			vc.Burst = 2 + r.Intn(10)
+		}
+		if r.Intn(2) == 0 {
+			vc.Warmup = 1 + r.Intn(4)
 		}
 		if vc.Wills && r.Intn(3) == 0 {
 			vc.MoreWills = 1 + r.Intn(2)
@@ -151,6 +162,29 @@ func runDisconnect(w *World) {
 		}
 		return
 	}
+	// identOK: the hold on the key (if any) still carries the key and LockId it was taken with
+	identOK := func(key, lid int) (bool, string) {
+		db := leader.sl.dbs[0]
+		if db == nil {
+			return true, ""
+		}
+		kb, lb := keyBytes(key), lidBytes(lid)
+		for _, m := range allManagers(db) {
+			if m.refCount == 0xffffffff || m.lockKey != kb {
+				continue
+			}
+			for _, l := range holdersOf(m) {
+				if l.command == nil || l.command.LockKey != kb || l.command.LockId != lb {
+					got := "no command"
+					if l.command != nil {
+						got = fmt.Sprintf("key %x LockId %x", l.command.LockKey, l.command.LockId)
+					}
+					return false, got
+				}
+			}
+		}
+		return true, ""
+	}
 	clientIdOfConn := map[int]int{} // history client -> announced client id
 	nextCid := 0
 	newConn := func(announce int) (*binClient, int, error) {
@@ -233,6 +267,7 @@ func runDisconnect(w *World) {
 				}
 				idx := 0
 				lid := 100 + v
+				binSend := send
 				send := send
 				if vc.Text {
 					// the same script over a text connection: registrations are answered +OK, every
@@ -258,6 +293,10 @@ func runDisconnect(w *World) {
 						}
 						return r
 					}
+				}
+				for i := 0; i < vc.Warmup; i++ {
+					send(c, cid, &idx, OpSpec{Cmd: 1, Key: 10*v + 9, Lid: lid, Expried: 5, Count: 0}, true)
+					send(c, cid, &idx, OpSpec{Cmd: 2, Key: 10*v + 9, Lid: lid}, true)
 				}
 				if vc.Wills {
 					send(c, cid, &idx, OpSpec{Cmd: protocol.COMMAND_WILL_LOCK, Key: 10 * v, Lid: lid, Expried: 300, Count: 0, Rcount: 5}, false)
@@ -329,6 +368,16 @@ func runDisconnect(w *World) {
 						w.probe("reconnects_with_same_client_id")
 					}
 				}
+				if vc.Burst > 0 {
+					sleep(30 * time.Millisecond)
+					if nc, ncid, err := newConn(0); err == nil {
+						nidx := 0
+						for i := 0; i < vc.Burst; i++ {
+							binSend(nc, ncid, &nidx, OpSpec{Cmd: 1, Key: 300 + 20*v + i, Lid: 700 + v, Expried: 2, Count: 0}, false)
+						}
+						w.probe("bursts_after_disconnect")
+					}
+				}
 				sleep(1500 * time.Millisecond)
 				if vc.Text && vc.NQueued > 0 {
 					// a text connection serves one command line at a time: while its last request is
@@ -376,6 +425,17 @@ func runDisconnect(w *World) {
 						}
 						if still < held {
 							w.violate("C18", "hold_dropped_on_disconnect", "victim %d (closed by %s): %d of its %d holds were released although their terms have not ended", v, vc.CloseMode, held-still, held)
+						}
+						for k := 0; k < vc.NHolds; k++ {
+							if ok, got := identOK(10*v+2+k, lid); !ok {
+								w.violate("C18", "hold_of_closed_connection_corrupted", "victim %d (closed by %s): the hold it left on key %d under LockId %d now reads %s: state of the ended connection is shared with another client", v, vc.CloseMode, 10*v+2+k, lid, got)
+								break
+							}
+						}
+					}
+					if vc.Wills {
+						if ok, got := identOK(10*v+1, lid); !ok {
+							w.violate("C18", "hold_of_closed_connection_corrupted", "victim %d (closed by %s): the hold its will took on key %d under LockId %d now reads %s", v, vc.CloseMode, 10*v+1, lid, got)
 						}
 					}
 				})
